@@ -43,6 +43,27 @@ def data_cursor_rule(ck, F):
                "items" % ",".join(extra), di.span)
 
 
+def data_parser_stops(ck, F):
+    from lib import path_records
+    """The DATA parser ends at the first colon outside quotes: once the parser reports `is_finished`, parse_data_until_colon feeds
+    it nothing more (chars after the colon belong to the next statement; fed on, a later comma pushes them as an extra item)."""
+    from lib import iteration_paths
+    b = get_fn(ck, F, "data::parse_data_until_colon")
+    if b is None:
+        return
+    recs = path_records(b, paths=iteration_paths(b))
+    if not recs:
+        # iterator form (`take_while(!finished)`, `try_for_each`): not decided here
+        ck.ok("C14:DATA:parser-stops-at-the-colon", "DATA round trip", "no explicit loop: not decided by this rule", nontrivial=False)
+        return
+    tested = [r for r in recs if any("is_finished" in d[0] for d in r["decisions"])]
+    goes_on = [r for r in recs if any("is_finished" in d[0] and d[2] is True for d in r["decisions"])]
+    ck.require(bool(tested) and not goes_on, "C14:DATA:parser-stops-at-the-colon", "DATA round trip",
+               "no trip round the feeding loop continues once is_finished is set",
+               "parse_data_until_colon keeps feeding characters to a finished parser: text after the colon that ends a DATA statement "
+               "(or an INPUT reply) is pushed as further items at the next comma", b.span)
+
+
 def string_text_rule(ck, F):
     """LIST prints a string literal as `"` + text + `"` with the text verbatim, and the tokenizer ends a literal at the first
     `"`: the two are inverse only while a literal's text cannot contain a double quote.  The text handed to the string manager
@@ -146,6 +167,7 @@ def run(ck, F, E):
                "string literals render between double quotes", "StringLiteral renders as %r" % dt.get("StringLiteral", {}).get("pieces"))
     string_text_rule(ck, F)
     data_cursor_rule(ck, F)
+    data_parser_stops(ck, F)
     ck.require(dt.get("Symbol", {}).get("pieces") == [None] and dt.get("NumericLiteral", {}).get("pieces") == [None],
                "C14:SPECIAL:Symbol/Numeric", "inverse tables", "symbols and numerals render as their Display text only",
                "Symbol / NumericLiteral render with extra text")
